@@ -2,6 +2,7 @@ import WhVerif.Lemmas.C03
 import WhVerif.Lemmas.C03BFS
 import WhVerif.Lemmas.C03Total
 import WhVerif.Lemmas.C03PipeExample
+import WhVerif.Lemmas.C03Header
 import WhVerif.Props.C04
 /-!
 # C03 — phase sets are exactly the read-connected components, named by leftmost variant
@@ -512,5 +513,77 @@ example : [0, 1, 0].length = Ex.exOut.allReads.length ∧
   rcases hr with rfl | rfl | rfl <;> exact ⟨⟨⟨"S", 0⟩, by simp [Ex.exFam], rfl⟩, by simp [SelRead.positions]⟩
 
 end pipeline
+
+
+/-! ## Round 10 (F140): the phase set identifier as TEXT — the declared type of PS decides what is written
+
+`_set_PS` assigns the integer `component + 1`; the file shows what htslib renders under the type the OUTPUT header declares for PS
+(`Model/C03Header.lean`).  As coded, `missing_headers` tolerates `##FORMAT=<ID=PS,Number=1,Type=Float>`. -/
+section PsText
+open WhVerif.C03.Header
+
+/-- **F140, as coded**: an input header declaring PS `Number=1,Type=Float` is accepted, the output header keeps `Float`, and the
+identifier of the phase set whose leftmost variant is at 1-based position 20000001 is written as `2e+07`: it is no decimal number
+(does not read back as 20000001), and the set at 20000004 — not connected to it — gets the very same token -/
+theorem f140_witness :
+    formatRule "PS" ⟨.n 1, .float⟩ = .accept ∧
+    psOutputType formatRule (some ⟨.n 1, .float⟩) = some .float ∧
+    renderToken .float 20000001 = ['2', 'e', '+', '0', '7'] ∧
+    parseDec (renderToken .float 20000001) ≠ some 20000001 ∧
+    renderToken .float 20000001 = renderToken .float 20000004 ∧
+    renderToken .float 20000203 = "2.00002e+07".toList := by decide
+
+/-- **repaired rule**: whatever the input header declares for PS (nothing, or any `Number` / `Type`), a run that is not refused
+writes PS under type Integer, and the text of ANY identifier `n` (= 1-based position of the leftmost variant) is the decimal
+number that reads back as `n` — so different positions never share a token -/
+theorem ps_token_roundtrip_when_integer (decl : Option Decl) (t : Typ)
+    (h : psOutputType formatRuleFixed decl = some t) (n : Nat) :
+    t = .integer ∧ parseDec (renderToken t n) = some n ∧
+    ∀ m, renderToken t m = renderToken t n → m = n := by
+  have ht : t = .integer := by
+    cases decl with
+    | none => simpa [psOutputType] using h.symm
+    | some d =>
+      obtain ⟨num, typ⟩ := d
+      cases typ <;>
+        simp [psOutputType, formatRuleFixed, predefined, seenType] at h <;>
+        (split at h <;> simp_all)
+  subst ht
+  refine ⟨rfl, L.parseDec_renderDec n, ?_⟩
+  intro m hm
+  have h1 := L.parseDec_renderDec m
+  have h2 := L.parseDec_renderDec n
+  simp only [renderToken] at hm
+  rw [hm, h2] at h1
+  exact (Option.some.inj h1).symm
+
+/-- non-vacuity: the standard declaration, a `Number=.` declaration (header line rewritten) and no declaration are not refused;
+`Type=Float` now is -/
+example : psOutputType formatRuleFixed (some ⟨.n 1, .integer⟩) = some .integer ∧
+    psOutputType formatRuleFixed (some ⟨.dot, .integer⟩) = some .integer ∧
+    psOutputType formatRuleFixed none = some .integer ∧
+    psOutputType formatRuleFixed (some ⟨.n 1, .float⟩) = none ∧
+    psOutputType formatRuleFixed (some ⟨.n 1, .string⟩) = none := by decide
+
+/-- the repair changes the decision for exactly one declaration of one key: PS `Number=1,Type=Float` (accept → refuse) -/
+theorem f140_repair_is_minimal (key : String) (d : Decl) :
+    formatRuleFixed key d ≠ formatRule key d ↔ (key = "PS" ∧ d = ⟨.n 1, .float⟩) := by
+  obtain ⟨num, typ⟩ := d
+  by_cases hk : key = "PS"
+  · subst hk
+    cases typ <;> simp [formatRuleFixed, formatRule, predefined, seenType]
+  · simp [formatRuleFixed, formatRule, hk]
+
+/-- why small test files never show F140: below 10^6 a Float-typed identifier is written exactly like an Integer-typed one -/
+theorem float_g_exact_below_1e6 (n : Nat) (h : n < 1000000) :
+    renderToken .float n = renderDec n ∧ parseDec (renderToken .float n) = some n := by
+  have h24 : n < 2 ^ 24 := by omega
+  have : renderToken .float n = renderDec n := by
+    simp [renderToken, renderFloatG, L.toF32_of_lt n h24, renderG6, h]
+  exact ⟨this, this ▸ L.parseDec_renderDec n⟩
+
+example : renderToken .float 999999 = "999999".toList ∧ renderToken .float 1000000 = "1e+06".toList := by decide
+
+end PsText
 
 end WhVerif.Props.C03
